@@ -211,6 +211,11 @@ func (ch *PeerChannel) GetSpendableMsat() uint64 {
 	if ch.SpendableMsat.MSat() > 0 {
 		return ch.SpendableMsat.MSat()
 	} else {
+		// lightningd reports 0 when we hold less than our reserve: the
+		// subtraction must not wrap around.
+		if ch.ToUsMsat.MSat() <= ch.OurReserveMsat.MSat() {
+			return 0
+		}
 		return ch.ToUsMsat.MSat() - ch.OurReserveMsat.MSat()
 	}
 }
@@ -219,6 +224,12 @@ func (ch *PeerChannel) GetReceivableMsat() uint64 {
 	if ch.ReceivableMsat.MSat() > 0 {
 		return ch.ReceivableMsat.MSat()
 	} else {
+		// lightningd reports 0 when the peer holds less than its reserve: the
+		// subtraction must not wrap around.
+		if ch.TotalMsat.MSat() <= ch.ToUsMsat.MSat() ||
+			ch.TotalMsat.MSat()-ch.ToUsMsat.MSat() <= ch.TheirReserveMsat.MSat() {
+			return 0
+		}
 		return ch.TotalMsat.MSat() - ch.ToUsMsat.MSat() - ch.TheirReserveMsat.MSat()
 	}
 }
